@@ -17,8 +17,12 @@ PLACES = {
     "inner_meth": (RW.Outer.Inner.meth, "Outer.Inner.meth", lambda v: RW.Outer.Inner().meth(v), 3),
     "made": (RW.made, "made", lambda v: RW.made(v), 4),
     "deco": (RW.deco.__wrapped__, "deco", lambda v: RW.deco(v), 5),
+    # waypoints: the probed path only passes through the function (no capture in it): '<fn> > top > v'
+    "way": (RW.way, "way", lambda v: RW.way(v), 1),
+    "lid_open": (RW.Box.Lid.open, "Box.Lid.open", lambda v: RW.Box.Lid().open(v), 1),
 }
-ENV = {"top": RW.top, "Outer": RW.Outer, "made": RW.made, "deco": RW.deco}
+WAYPOINTS = {"way", "lid_open"}
+ENV = {"top": RW.top, "Outer": RW.Outer, "made": RW.made, "deco": RW.deco, "way": RW.way, "Box": RW.Box}
 
 
 def run_case(c):
@@ -35,7 +39,7 @@ def run_case(c):
         outcome, same = "ok", True
         try:
             if op[0] == "act":
-                text = (byname if op[2] == "name" else ref) + " > v"
+                text = (byname if op[2] == "name" else ref) + (" > top > v" if c["place"] in WAYPOINTS else " > v")
                 p = Probe(text, env=ENV)
                 recv[op[1]] = []
                 p.subscribe(lambda d, k=op[1]: recv[k].append(d["v"]))
